@@ -29,6 +29,55 @@ DISPATCH = {
 }
 
 
+# kinds whose decoder is skipped on purpose under a condition checked elsewhere
+CONDITIONAL_BY_DESIGN = {'OldPalette04': 'ignored once a palette is present (precedence rule, C11 P2)',
+                         'OldPalette11': 'ignored once a palette is present (precedence rule, C11 P2)'}
+
+
+def dispatch_always_decodes(ctx, rule, exempt=()):
+    """every chunk of a decoded kind is handed to its decoder: inside the dispatch arm no non-error path reaches the end of the
+    arm without passing through the decoder call (so the decoder's refusals apply to every chunk, in every frame)"""
+    import C10 as _c10
+    pf = ctx.anchor('asefile::parse::parse_frame')
+    if pf is None:
+        return
+    sws = [s for s in q.switches_on(pf, lambda d: d[0] == 'discr') if 'OldPalette04' in _c10.switch_variants(pf, s).values()]
+    if len(sws) != 1:
+        ctx.fail(pf.name + '|%s|no-dispatch' % rule, 'no single ChunkType match in parse_frame')
+        return
+    sw = sws[0]
+    names = _c10.switch_variants(pf, sw)
+    errb = set()
+    for d in q.defs_in(pf, pf.cfg.reach):
+        if d[0] == 0 and not d[1] and all(q.is_err_term(a) for a in alts(d[2])):
+            errb.add(d[3])
+    n = 0
+    for v, s in pf.blocks[sw]['term']['targets']:
+        kind = names.get(v)
+        if kind not in DISPATCH or kind in CONDITIONAL_BY_DESIGN or kind in exempt:
+            continue
+        reg = q.edge_region(pf, sw, s)
+        decs = [c for c in q.calls(pf) if c.bb in reg and q.callee_name(c) == DISPATCH[kind]]
+        if len(decs) != 1:
+            continue        # reported by the dispatch rule
+        tgt = decs[0].bb
+        seen, work, leak = set(), [s], None
+        while work:
+            x = work.pop()
+            if x in seen or x == tgt or x in errb or pf.blocks[x]['cleanup']:
+                continue
+            if x not in reg:
+                leak = x
+                break
+            seen.add(x)
+            work.extend(pf.cfg.succ[x])
+        n += 1
+        ctx.inst(rule, kind + '#always', leak is None, '%s chunk: %s' % (kind, 'every path through the arm calls %s' % DISPATCH[kind].split('asefile::')[-1]
+                 if leak is None else 'some path leaves the arm WITHOUT decoding the chunk (its refusals and contents are skipped)'),
+                 decs[0].span, key='%s|%s|%s|always' % (pf.name, rule, kind))
+    ctx.floor('dispatch arms examined for unconditional decoding', n, 9 - len(exempt))
+
+
 def run(ctx):
     fx = ctx.fx
     spec = SP.load_spec()
@@ -214,6 +263,9 @@ def run(ctx):
     import C07
     C07.chunk_count_selection(ctx, 'O3')
     layout.loop_counts_exact(ctx, spec, 'L1')
+    # (Tags: the decoded value is stored for frame 0 only, by design - whether later Tags chunks are decoded at all does not
+    # change any reported value; C15 demands it for the refusal)
+    dispatch_always_decodes(ctx, 'O3', exempt=('Tags',))
     if pf is not None:
         import C10 as _c10
         sws = [s for s in q.switches_on(pf, lambda d: d[0] == 'discr') if 'OldPalette04' in _c10.switch_variants(pf, s).values()]
